@@ -13,6 +13,7 @@
 #include <ompl/base/spaces/DiscreteStateSpace.h>
 #include <ompl/base/spaces/WrapperStateSpace.h>
 #include <ompl/base/SpaceInformation.h>
+#include <ompl/base/ScopedState.h>
 #include <ompl/base/StateStorage.h>
 #include <ompl/base/PlannerData.h>
 #include <ompl/base/PlannerDataStorage.h>
@@ -25,6 +26,7 @@
 #include <ompl/util/Exception.h>
 #include <boost/serialization/export.hpp>
 #include <algorithm>
+#include <functional>
 #include <cstdlib>
 #include <map>
 #include <memory>
@@ -126,10 +128,16 @@ using NodeP = std::shared_ptr<Node>;
 
 // space names are "N" + the number, zero-padded to a fixed width: CompareSubstateLocation orders names as strings and
 // the model orders the numbers; with a fixed width the two orders coincide
+static bool g_spaced = false;  // header token "names=spaced": subspace names contain blanks (they are only ever map keys)
 static std::string nameOf(unsigned long long nm)
 {
     std::string d = std::to_string(nm);
-    return "N" + std::string(d.size() < 9 ? 9 - d.size() : 0, '0') + d;
+    return std::string(g_spaced ? "N " : "N") + std::string(d.size() < 9 ? 9 - d.size() : 0, '0') + d + (g_spaced ? " sub space" : "");
+}
+static unsigned long long numOf(const std::string &name)
+{
+    size_t a = name.find_first_of("0123456789");
+    return std::stoull(name.substr(a));
 }
 
 static bool isCompV(const NodeP &x)
@@ -569,6 +577,56 @@ static LoadOut loadPD(const NodeP &node, int cdim, bool controlStorage, const st
     return r;
 }
 
+static std::string spaceLine(const NodeP &x)
+{
+    std::vector<int> sig;
+    x->space->computeSignature(sig);
+    std::string s = "ok sig=";
+    for (size_t k = 0; k < sig.size(); ++k)
+        s += (k ? "," : "") + std::to_string(sig[k]);
+    s += " len=" + std::to_string(x->space->getSerializationLength());
+    s += " dim=" + std::to_string(x->space->getDimension());
+    const auto &locs = x->space->getValueLocations();
+    s += " nreals=" + std::to_string(locs.size()) + " locs=";
+    for (size_t k = 0; k < locs.size(); ++k)
+        s += (k ? ";" : "") + chainStr(locs[k].stateLocation.chain) + ":" + std::to_string(locs[k].index);
+    if (locs.empty())
+        s += "-";
+    s += " subs=";
+    {
+        std::vector<std::pair<unsigned long long, std::string>> subs;
+        for (const auto &e : x->space->getSubstateLocationsByName())
+            subs.emplace_back(numOf(e.first), chainStr(e.second.chain));
+        std::sort(subs.begin(), subs.end());
+        for (size_t k = 0; k < subs.size(); ++k)
+            s += (k ? ";" : "") + std::to_string(subs[k].first) + ":" + subs[k].second;
+        if (subs.empty())
+            s += "-";
+    }
+    // getValueAddressAtIndex for index 0 .. (#doubles), identified by the harness' own walk
+    ob::State *st = x->space->allocState();
+    auto rs = refs(x, st);
+    size_t nd = 0;
+    for (auto &r : rs)
+        if (r.d)
+            ++nd;
+    s += " va=";
+    for (size_t k = 0; k <= nd; ++k)
+    {
+        double *p = x->space->getValueAddressAtIndex(st, k);
+        std::string a = "?";
+        if (!p)
+            a = "null";
+        else
+            for (auto &r : rs)
+        if (r.d == p)
+            a = r.path;
+        s += (k ? ";" : "") + a;
+    }
+    x->space->freeState(st);
+    return s;
+}
+
 int main()
 {
     ompl::msg::useOutputHandler(&recorder);
@@ -578,12 +636,21 @@ int main()
         return 2;
     {
         auto h = vp::tokens(line);
-        if (h.empty() || h[0] != "copy" || h.size() > 2 || (h.size() == 2 && h[1] != "wc=ub" && h[1] != "wc=fixed"))
+        bool hok = !h.empty() && h[0] == "copy" && h.size() <= 3;
+        for (size_t k = 1; hok && k < h.size(); ++k)
+        {
+            if (h[k] == "wc=fixed")
+                g_fixed = true;
+            else if (h[k] == "names=spaced")
+                g_spaced = true;
+            else if (h[k] != "wc=ub")
+                hok = false;
+        }
+        if (!hok)
         {
             std::cout << "bad-header\n";
             return 2;
         }
-        g_fixed = h.size() == 2 && h[1] == "wc=fixed";
     }
     auto bad = [] { std::cout << "bad-op" << std::endl; };
     while (vp::readLine(line))
@@ -611,52 +678,39 @@ int main()
             else
                 x->space->computeLocations();  // setup() refuses zero-extent components
             spaces[*natAt(1)] = x;
-            std::vector<int> sig;
-            x->space->computeSignature(sig);
-            std::string s = "ok sig=";
-            for (size_t k = 0; k < sig.size(); ++k)
-                s += (k ? "," : "") + std::to_string(sig[k]);
-            s += " len=" + std::to_string(x->space->getSerializationLength());
-            s += " dim=" + std::to_string(x->space->getDimension());
-            const auto &locs = x->space->getValueLocations();
-            s += " nreals=" + std::to_string(locs.size()) + " locs=";
-            for (size_t k = 0; k < locs.size(); ++k)
-                s += (k ? ";" : "") + chainStr(locs[k].stateLocation.chain) + ":" + std::to_string(locs[k].index);
-            if (locs.empty())
-                s += "-";
-            s += " subs=";
-            {
-                std::vector<std::pair<unsigned long long, std::string>> subs;
-                for (const auto &e : x->space->getSubstateLocationsByName())
-                    subs.emplace_back(std::stoull(e.first.substr(1)), chainStr(e.second.chain));
-                std::sort(subs.begin(), subs.end());
-                for (size_t k = 0; k < subs.size(); ++k)
-                    s += (k ? ";" : "") + std::to_string(subs[k].first) + ":" + subs[k].second;
-                if (subs.empty())
-                    s += "-";
-            }
-            // getValueAddressAtIndex for index 0 .. (#doubles), identified by the harness' own walk
-            ob::State *st = x->space->allocState();
-            auto rs = refs(x, st);
-            size_t nd = 0;
-            for (auto &r : rs)
-                if (r.d)
-                    ++nd;
-            s += " va=";
-            for (size_t k = 0; k <= nd; ++k)
-            {
-                double *p = x->space->getValueAddressAtIndex(st, k);
-                std::string a = "?";
-                if (!p)
-                    a = "null";
-                else
-                    for (auto &r : rs)
-                        if (r.d == p)
-                            a = r.path;
-                s += (k ? ";" : "") + a;
-            }
-            x->space->freeState(st);
+            std::string s = spaceLine(x);
             std::cout << s << std::endl;
+        }
+        else if (op == "rename" && t.size() == 4 && natAt(1) && natAt(2) && natAt(3))
+        {
+            // history: a subspace is renamed after the space was set up; the owner then recomputes its tables
+            auto sp = spaces.find(*natAt(1));
+            if (sp == spaces.end())
+            {
+                bad();
+                continue;
+            }
+            std::function<Node *(const NodeP &)> find = [&](const NodeP &n) -> Node * {
+                if (n->nm == *natAt(2))
+                    return n.get();
+                for (auto &k : n->kids)
+                    if (Node *r = find(k))
+                        return r;
+                return nullptr;
+            };
+            Node *n = find(sp->second);
+            if (!n)
+            {
+                bad();
+                continue;
+            }
+            n->nm = *natAt(3);
+            static_cast<ob::StateSpace *>(n->space.get())->setName(nameOf(n->nm));
+            if (sp->second->kind == 'W')
+                sp->second->space->setup();
+            else
+                sp->second->space->computeLocations();
+            std::cout << spaceLine(sp->second) << std::endl;
         }
         else if (op == "state" && natAt(1) && natAt(2))
         {
@@ -811,13 +865,200 @@ int main()
             auto res = ob::copyStateData(dx->space, d->second.st, sx->space, s->second.st, names);
             std::vector<unsigned long long> ns;
             for (auto &n : names)
-                ns.push_back(std::stoull(n.substr(1)));
+                ns.push_back(numOf(n));
             std::sort(ns.begin(), ns.end());
             std::string l;
             for (size_t k = 0; k < ns.size(); ++k)
                 l += (k ? "," : "") + std::to_string(ns[k]);
             std::cout << "ok names=" << (l.empty() ? "-" : l) << " res=" << (int)res << " atoms=" << dumpAtoms(dx, d->second.st)
                       << std::endl;
+        }
+        else if (op == "sop" && t.size() == 4 && natAt(1) && natAt(2) && (t[3] == "shl" || t[3] == "shr"))
+        {
+            // ScopedState operators between (possibly different) spaces: dest << src and src >> dest
+            auto d = states.find(*natAt(1)), s = states.find(*natAt(2));
+            if (d == states.end() || s == states.end())
+            {
+                bad();
+                continue;
+            }
+            NodeP dx = spaces.at(d->second.spid), sx = spaces.at(s->second.spid);
+            if (!g_fixed && (hasWC(dx) || hasWC(sx)))
+            {
+                bad();
+                continue;
+            }
+            {
+                ob::ScopedState<> D(dx->space, d->second.st), S(sx->space, s->second.st);
+                if (t[3] == "shl")
+                    D << S;
+                else
+                    S >> D;
+                dx->space->copyState(d->second.st, D.get());
+            }
+            std::cout << "ok atoms=" << dumpAtoms(dx, d->second.st) << std::endl;
+        }
+        else if (op == "sreals" && t.size() == 2 && natAt(1))
+        {
+            auto it = states.find(*natAt(1));
+            if (it == states.end())
+            {
+                bad();
+                continue;
+            }
+            NodeP x = spaces.at(it->second.spid);
+            ob::ScopedState<> S(x->space, it->second.st);
+            std::cout << "reals=" << bitsList(S.reals()) << std::endl;
+        }
+        else if (op == "sfrom" && natAt(1))
+        {
+            size_t i = 2;
+            auto xs = vp::takeCounted(t, i);
+            auto it = states.find(*natAt(1));
+            bool ok = xs && i == t.size() && it != states.end();
+            std::vector<double> reals;
+            if (ok)
+                for (auto &a : *xs)
+                {
+                    auto b = vp::parseBits(a);
+                    if (!b)
+                        ok = false;
+                    else
+                        reals.push_back(*b);
+                }
+            if (!ok)
+            {
+                bad();
+                continue;
+            }
+            NodeP x = spaces.at(it->second.spid);
+            {
+                ob::ScopedState<> S(x->space, it->second.st);
+                S = reals;   // sets the first reals.size() doubles, stops at the end of the state
+                x->space->copyState(it->second.st, S.get());
+            }
+            std::cout << "ok atoms=" << dumpAtoms(x, it->second.st) << std::endl;
+        }
+        else if (op == "ssm" && natAt(1) && natAt(2))
+        {
+            // GraphStateStorage = StateStorageWithMetadata<std::vector<std::size_t>> (what PlannerData::extractStateStorage
+            // returns): states followed by one metadata vector per state
+            struct GS : ob::GraphStateStorage
+            {
+                using ob::GraphStateStorage::GraphStateStorage;
+                size_t mdCount() const { return metadata_.size(); }
+            };
+            size_t i = 3;
+            auto xs = vp::takeCounted(t, i);
+            auto sp = spaces.find(*natAt(1));
+            bool ok = xs && i == t.size() && sp != spaces.end();
+            std::vector<const ob::State *> sts;
+            if (ok)
+                for (auto &a : *xs)
+                {
+                    auto id = vp::parseNat(a);
+                    auto it = id ? states.find(*id) : states.end();
+                    if (it == states.end() || it->second.spid != *natAt(1))
+                    {
+                        ok = false;
+                        break;
+                    }
+                    sts.push_back(it->second.st);
+                }
+            if (ok && sp->second->space->getSerializationLength() == 0)
+                ok = false;
+            if (!ok)
+            {
+                bad();
+                continue;
+            }
+            NodeP x = sp->second;
+            auto mdOf = [](size_t k) {
+                std::vector<std::size_t> m;
+                for (size_t j = 0; j < k % 3; ++j)
+                    m.push_back((k * 7 + j * 3) % 11);
+                return m;
+            };
+            auto mdStr = [](const std::vector<std::size_t> &m) {
+                std::string q;
+                for (size_t j = 0; j < m.size(); ++j)
+                    q += (j ? "." : "") + std::to_string(m[j]);
+                return q.empty() ? std::string("-") : q;
+            };
+            std::string bytes;
+            std::vector<std::string> orig;
+            {
+                GS st(x->space);
+                for (size_t k = 0; k < sts.size(); ++k)
+                {
+                    st.addState(sts[k], mdOf(k));
+                    orig.push_back(ownImage(x, sts[k]));
+                }
+                std::ostringstream out;
+                st.store(out);
+                bytes = out.str();
+            }
+            std::string line;
+            {
+                GS st(x->space);
+                std::istringstream in(bytes);
+                unsigned e0 = recorder.errors;
+                st.load(in);
+                std::string imgs, md;
+                for (size_t k = 0; k < st.size(); ++k)
+                {
+                    imgs += (k ? ";" : "") + ownImage(x, st.getState(k));
+                    md += (k ? ";" : "") + (k < st.mdCount() ? mdStr(st.getMetadata(k)) : std::string("?"));
+                }
+                line = "ok n=" + std::to_string(st.size()) + " imgs=" + (imgs.empty() ? "-" : imgs) + " md=" + (md.empty() ? "-" : md);
+                if (recorder.errors != e0)
+                    line += " ERR";
+            }
+            // byte-level truncation sweep: error logged, nothing escapes, at most the stored states, each equal to the stored
+            // one, and the object stays consistent (one metadata entry per state)
+            size_t tested = 0, nbad = 0, ninc = 0;
+            std::string first, firstInc;
+            for (size_t off : truncOffsets(bytes.size(), *natAt(2), {}))
+            {
+                GS st(x->space);
+                std::istringstream in(bytes.substr(0, off));
+                unsigned e0 = recorder.errors;
+                bool threw = false;
+                try
+                {
+                    st.load(in);
+                }
+                catch (std::exception &)
+                {
+                    threw = true;
+                }
+                ++tested;
+                std::string why;
+                if (threw)
+                    why = "exception-escaped";
+                else if (recorder.errors == e0)
+                    why = "no-error-logged";
+                else if (st.size() > orig.size())
+                    why = "more-states-than-stored";
+                else
+                    for (size_t k = 0; k < st.size(); ++k)
+                        if (ownImage(x, st.getState(k)) != orig[k])
+                            why = "loaded-state-differs";
+                if (!why.empty())
+                {
+                    if (!nbad)
+                        first = std::to_string(off) + ":" + why;
+                    ++nbad;
+                }
+                else if (st.mdCount() != st.size())
+                {
+                    if (!ninc)
+                        firstInc = std::to_string(off) + ":" + std::to_string(st.size()) + "states/" + std::to_string(st.mdCount()) + "metadata";
+                    ++ninc;
+                }
+            }
+            std::cout << line << " # bytes=" << bytes.size() << " trunc=" << tested << "/" << nbad << (nbad ? "/" + first : "")
+                      << " inconsistent=" << ninc << (ninc ? "/" + firstInc : "") << std::endl;
         }
         else if (op == "ss" && natAt(1) && natAt(2) && natAt(3))
         {
@@ -838,8 +1079,6 @@ int main()
                     }
                     sts.push_back(it->second.st);
                 }
-            if (ok && sp->second->space->getSerializationLength() == 0)
-                ok = false;
             if (!ok)
             {
                 bad();
@@ -925,7 +1164,7 @@ int main()
             // record boundaries: header + i states
             std::string rb;
             std::vector<size_t> bounds;
-            for (size_t k = 0; k < sts.size(); ++k)
+            for (size_t k = 0; l > 0 && k < sts.size(); ++k)
             {
                 bounds.push_back(hdr + k * l);
                 std::vector<std::string> im2;
@@ -942,7 +1181,7 @@ int main()
                 std::vector<std::string> im2;
                 loadWith(x, bytes.substr(0, off), errs, threw, im2);
                 ++tested;
-                size_t full = off >= hdr ? (off - hdr) / l : 0;
+                size_t full = (off >= hdr && l > 0) ? (off - hdr) / l : 0;
                 std::string why;
                 if (threw)
                     why = "exception-escaped";
@@ -961,7 +1200,44 @@ int main()
                     ++nbad;
                 }
             }
-            std::cout << s << " marker=" << mk << " sig=" << sg << " rb=" << rb << " # bytes=" << bytes.size()
+            // history: ONE StateStorage object used for a junk state, a full load, a truncated load, a full load again and a
+            // second store; every load must replace the contents, the second store must reproduce the first archive
+            std::string hist = "ok";
+            {
+                ob::StateStorage hst(x->space);
+                ob::State *junk = x->space->allocState();
+                garbage(x, junk);
+                hst.addState(junk);
+                x->space->freeState(junk);
+                auto same = [&](const char *when) {
+                    bool eq = hst.size() == orig.size();
+                    for (size_t k = 0; eq && k < orig.size(); ++k)
+                        eq = ownImage(x, hst.getState(k)) == orig[k];
+                    if (!eq && hist == "ok")
+                        hist = when;
+                };
+                {
+                    std::istringstream in(bytes);
+                    hst.load(in);
+                    same("after-junk");
+                }
+                {
+                    std::istringstream in(bytes.substr(0, bytes.size() / 2));
+                    hst.load(in);
+                    if (hst.size() > orig.size() && hist == "ok")
+                        hist = "truncated-load-kept-old-states";
+                }
+                {
+                    std::istringstream in(bytes);
+                    hst.load(in);
+                    same("after-truncated");
+                }
+                std::ostringstream out2;
+                hst.store(out2);
+                if (out2.str() != bytes && hist == "ok")
+                    hist = "second-store-differs";
+            }
+            std::cout << s << " marker=" << mk << " sig=" << sg << " rb=" << rb << " hist=" << hist << " # bytes=" << bytes.size()
                       << " hdr=" << hdr << " clean=" << cleanLoad << " trunc=" << tested << "/" << nbad
                       << (nbad ? "/" + first : "") << std::endl;
         }
@@ -1155,7 +1431,22 @@ int main()
                     ++nbad;
                 }
             }
-            std::cout << "ok=1 " << full.dump << " marker=" << mk << " sig=" << sg << " # bytes=" << bytes.size() << " trunc=" << tested << "/" << nbad << (nbad ? "/" + first : "")
+            // store(load(store(g))) must reproduce the archive byte for byte
+            std::string restore = "same";
+            {
+                ob::SpaceInformationPtr si2;
+                oc::SpaceInformationPtr siC2;
+                oc::ControlSpacePtr cs2;
+                makeInfo(pds->node, pds->cdim, si2, siC2, cs2);
+                auto pd2 = newPD(si2, siC2);
+                std::istringstream in(bytes);
+                std::ostringstream out2;
+                bool l2 = ctl ? oc::PlannerDataStorage().load(in, *pd2) : ob::PlannerDataStorage().load(in, *pd2);
+                bool s2 = l2 && (ctl ? oc::PlannerDataStorage().store(*pd2, out2) : ob::PlannerDataStorage().store(*pd2, out2));
+                if (!s2 || out2.str() != bytes)
+                    restore = "differs";
+            }
+            std::cout << "ok=1 " << full.dump << " marker=" << mk << " sig=" << sg << " restore=" << restore << " # bytes=" << bytes.size() << " trunc=" << tested << "/" << nbad << (nbad ? "/" + first : "")
                       << std::endl;
         }
         else if (op == "pdctl" && pds && pds->cdim >= 0 && natAt(1))
